@@ -36,6 +36,16 @@ __CPROVER_requires(out == &g_out) __CPROVER_ensures(expected(g_out, 1, 0, e0, e1
 void h_getBoundaries_2(int e0, int e1, void *out)
 __CPROVER_requires(out == &g_out) __CPROVER_ensures(expected(g_out, 1, 1, e0, e1)) __CPROVER_assigns(g_out);
 
+/* compiled look-up wrappers (EqRel.h).  ekind carries 16 when the iterator swaps the columns of every tuple it yields */
+static _Bool expected_w(struct vx_res r, _Bool swapped, _Bool b0, _Bool b1, int v0, int v1) {
+    struct vx_res q = r; if ((r.ekind >= 16) != swapped) return 0; q.ekind = r.ekind & 15;
+    return expected(q, b0, b1, v0, v1);
+}
+void h_range_10(int e0, int e1, void *out) __CPROVER_requires(out == &g_out) __CPROVER_ensures(expected_w(g_out, 0, 1, 0, e0, e1)) __CPROVER_assigns(g_out);
+/* second column bound to e1: pairs (e1,_) of the symmetric closure, yielded with swapped columns = pairs (_,e1) */
+void h_range_01(int e0, int e1, void *out) __CPROVER_requires(out == &g_out) __CPROVER_ensures(expected_w(g_out, 1, 1, 0, e1, e0)) __CPROVER_assigns(g_out);
+void h_range_11(int e0, int e1, void *out) __CPROVER_requires(out == &g_out) __CPROVER_ensures(expected_w(g_out, 0, 1, 1, e0, e1)) __CPROVER_assigns(g_out);
+
 #ifdef VX_CANARY
 #define CANARY __CPROVER_assert(0, "canary: reachable after the call under contract")
 #else
@@ -53,3 +63,6 @@ void harness_lower_bound(void) {
 void harness_gb0(void) { in_v0 = nondet_int(); in_v1 = nondet_int(); h_getBoundaries_0(in_v0, in_v1, &g_out); CANARY; }
 void harness_gb1(void) { in_v0 = nondet_int(); in_v1 = nondet_int(); h_getBoundaries_1(in_v0, in_v1, &g_out); CANARY; }
 void harness_gb2(void) { in_v0 = nondet_int(); in_v1 = nondet_int(); h_getBoundaries_2(in_v0, in_v1, &g_out); CANARY; }
+void harness_range_10(void) { in_v0 = nondet_int(); in_v1 = nondet_int(); h_range_10(in_v0, in_v1, &g_out); CANARY; }
+void harness_range_01(void) { in_v0 = nondet_int(); in_v1 = nondet_int(); h_range_01(in_v0, in_v1, &g_out); CANARY; }
+void harness_range_11(void) { in_v0 = nondet_int(); in_v1 = nondet_int(); h_range_11(in_v0, in_v1, &g_out); CANARY; }
